@@ -62,7 +62,7 @@ CHECKS = {
          "race detector only sees executed interleavings; porcupine timeout (60 s) = dropped case; model allows Unlock(current) to fail on an already unlocked wallet (sequential behaviour of the code)",
          "DESIGN.md §3 C14"),
  "C15": ("exploration", "seeded scenario exploration of the real capacity keeper, wallet, massdb.v1 header-only plot files and api.Server capacity handlers with an arithmetic and directory-listing oracle, plus restart comparison",
-         "Scenarios run ConfigureBySize/ByPath/ByBitLength/ByFlags, the API capacity handlers, removals and keeper restarts over 0-6 pre-existing spaces in 1-3 directories; every call is judged from returned infos, directory listings before/after and disk.Usage free space for size arithmetic (sum <= request, gap < smallest plot), reuse-before-create, directory placement, exact counts, rejection without files (incl. overflow-sized requests), and re-discovery after restart; two in five scenarios spell miner.proof_dir non-canonically (relative, through "..", trailing "/" or "/."), and every api.ConfigureCapacityByDirs response is compared per directory with the selection. Held = on the scenarios executed, bit lengths 24-30, nothing plotted.",
+         "Scenarios run ConfigureBySize/ByPath/ByBitLength/ByFlags, the API capacity handlers, removals and keeper restarts over 0-6 pre-existing spaces in 1-3 directories; every call is judged from returned infos, directory listings before/after and disk.Usage free space for size arithmetic (sum <= request, gap < smallest plot), reuse-before-create, directory placement, exact counts, rejection without files (incl. overflow-sized requests), and re-discovery after restart; two in five scenarios spell miner.proof_dir non-canonically (relative, through '..', trailing '/' or '/.'), and every api.ConfigureCapacityByDirs response is compared per directory with the selection. Held = on the scenarios executed, bit lengths 24-30, nothing plotted.",
          "free disk space is read with the same gopsutil call the code uses, requests near the boundary are not judged; trusts mass-core PlotSize",
          "DESIGN.md §3 C15"),
  "C16": ("exploration", "seeded generators with real BLS elements + structure-aware JSON/type-prefix/hex/BLS-point mutator over valid encodings, child-process batches with progress-file crash attribution, hang/RSS watchdog and per-input allocation accounting; thorough re-runs a slice under go build -asan",
